@@ -996,3 +996,450 @@ pub fn replay_mt_delete(input: &serde_json::Value) -> Result<Vec<Violation>, Str
     }
     Ok(vec![])
 }
+
+// ------------------------------------------------------------------------------------
+// Real-thread publish storm (C08, C09) and list storm (C13): answers, not only liveness.
+
+/// `publishers` tasks publish `batches` requests of `per_batch` messages each to one topic with
+/// two subscriptions, in parallel on a 4-worker runtime; afterwards everything is pulled (one
+/// consumer per subscription). Returns (messages published, violations as (rule, props, detail)).
+pub fn run_mt_publish_storm(seed: u64, publishers: usize, batches: usize, per_batch: usize) -> (u64, Vec<(String, Vec<&'static str>, String)>) {
+    let (tx, rx) = std::sync::mpsc::channel();
+    std::thread::spawn(move || {
+        let rt = tokio::runtime::Builder::new_multi_thread().worker_threads(4).enable_all().build().unwrap();
+        let out = rt.block_on(async move {
+            let mut bad: Vec<(String, Vec<&'static str>, String)> = Vec::new();
+            let app = Deltio::new();
+            let routes = app.server_builder().into_service();
+            let mut p = PublisherClient::new(Wire::new(routes.clone()));
+            let mut s = SubscriberClient::new(Wire::new(routes.clone())).max_decoding_message_size(usize::MAX);
+            let topic = "projects/ps/topics/t".to_string();
+            let subs = ["projects/ps/subscriptions/a".to_string(), "projects/ps/subscriptions/b".to_string()];
+            let _ = p.create_topic(Topic { name: topic.clone(), ..Default::default() }).await;
+            for sub in &subs {
+                let _ = s.create_subscription(Subscription { name: sub.clone(), topic: topic.clone(), ack_deadline_seconds: 600, ..Default::default() }).await;
+            }
+            // payload = (publisher, batch, position) so that every delivery can be matched
+            let mut hs = Vec::new();
+            for pi in 0..publishers {
+                let routes = routes.clone();
+                let topic = topic.clone();
+                hs.push(tokio::spawn(async move {
+                    let mut c = PublisherClient::new(Wire::new(routes));
+                    let mut got: Vec<(Vec<u8>, String)> = Vec::new();
+                    for b in 0..batches {
+                        let n = 1 + (seed as usize + pi * 7 + b * 3) % per_batch;
+                        let msgs: Vec<PubsubMessage> = (0..n).map(|k| PubsubMessage { data: format!("{}:{}:{}", pi, b, k).into_bytes(), ..Default::default() }).collect();
+                        let datas: Vec<Vec<u8>> = msgs.iter().map(|m| m.data.clone()).collect();
+                        match tokio::time::timeout(Duration::from_secs(20), c.publish(PublishRequest { topic: topic.clone(), messages: msgs })).await {
+                            Ok(Ok(r)) => {
+                                let ids = r.into_inner().message_ids;
+                                if ids.len() != datas.len() {
+                                    return Err(format!("Publish of {} messages returned {} ids", datas.len(), ids.len()));
+                                }
+                                got.extend(datas.into_iter().zip(ids));
+                            }
+                            Ok(Err(e)) => return Err(format!("Publish failed: {}", e)),
+                            Err(_) => return Err("Publish did not return within 20 s".to_string()),
+                        }
+                        if b % 5 == 0 {
+                            tokio::task::yield_now().await;
+                        }
+                    }
+                    Ok(got)
+                }));
+            }
+            let mut by_data: HashMap<Vec<u8>, String> = HashMap::new();
+            let mut ids_seen: HashMap<String, Vec<u8>> = HashMap::new();
+            for h in hs {
+                match h.await {
+                    Ok(Ok(got)) => {
+                        for (d, id) in got {
+                            if let Some(other) = ids_seen.insert(id.clone(), d.clone()) {
+                                bad.push(("duplicate_message_id_mt".into(), vec!["C09", "C08"], format!("id {} was returned for two messages ({:?} and {:?})", id, String::from_utf8_lossy(&other), String::from_utf8_lossy(&d))));
+                            }
+                            by_data.insert(d, id);
+                        }
+                    }
+                    Ok(Err(e)) => bad.push(("publish_failed_mt".into(), vec!["C07"], e)),
+                    Err(_) => bad.push(("publish_failed_mt".into(), vec!["C07"], "publisher task panicked".into())),
+                }
+            }
+            let total = by_data.len() as u64;
+            // drain both subscriptions with one consumer each
+            for sub in &subs {
+                let mut seen: Vec<(u128, Vec<u8>)> = Vec::new();
+                let mut last_ack: u64 = 0;
+                loop {
+                    #[allow(deprecated)]
+                    let r = match tokio::time::timeout(Duration::from_secs(20), s.pull(PullRequest { subscription: sub.clone(), max_messages: 700, return_immediately: true })).await {
+                        Ok(Ok(r)) => r.into_inner().received_messages,
+                        _ => {
+                            bad.push(("pull_failed_mt".into(), vec!["C07"], format!("Pull on {} failed or did not return", sub)));
+                            break;
+                        }
+                    };
+                    if r.is_empty() {
+                        break;
+                    }
+                    for m in r {
+                        let a: u64 = m.ack_id.parse().unwrap_or(0);
+                        if a <= last_ack {
+                            bad.push(("ack_id_not_increasing_mt".into(), vec!["C03"], format!("{}: ack id {} after {}", sub, a, last_ack)));
+                        }
+                        last_ack = a;
+                        if let Some(msg) = m.message {
+                            seen.push((msg.message_id.parse().unwrap_or(0), msg.data));
+                        }
+                    }
+                }
+                if seen.len() as u64 != total {
+                    bad.push(("fanout_count_mt".into(), vec!["C01"], format!("{} received {} of {} published messages", sub, seen.len(), total)));
+                }
+                // the id of a delivery is the id Publish returned for that message
+                for (id, d) in &seen {
+                    match by_data.get(d) {
+                        Some(pid) if pid.parse::<u128>().ok() == Some(*id) => {}
+                        Some(pid) => {
+                            bad.push(("publish_response_id_mismatch_mt".into(), vec!["C08", "C09"], format!("{}: message {:?} delivered with id {}, Publish returned {}", sub, String::from_utf8_lossy(d), id, pid)));
+                            break;
+                        }
+                        None => {
+                            bad.push(("unknown_message_mt".into(), vec!["C09"], format!("{}: delivered a message nobody published: {:?}", sub, String::from_utf8_lossy(d))));
+                            break;
+                        }
+                    }
+                }
+                // first deliveries (nothing was pulled twice) in id order
+                if let Some(w) = seen.windows(2).find(|w| w[1].0 < w[0].0) {
+                    bad.push(("first_delivery_order_mt".into(), vec!["C08"], format!("{}: message id {} delivered after id {}", sub, w[1].0, w[0].0)));
+                }
+            }
+            (total, bad)
+        });
+        rt.shutdown_background();
+        let _ = tx.send(out);
+    });
+    match rx.recv_timeout(Duration::from_secs(180)) {
+        Ok(r) => r,
+        Err(_) => (0, vec![("storm_stuck_mt".into(), vec!["C07"], "the publish storm did not come back within 180 s".into())]),
+    }
+}
+
+/// Topics are created and deleted by two tasks while two others list, on real threads; once all
+/// have finished, a walk must yield exactly the topics that exist.
+pub fn run_mt_list_storm(seed: u64, rounds: usize) -> (u64, Vec<(String, Vec<&'static str>, String)>) {
+    let (tx, rx) = std::sync::mpsc::channel();
+    std::thread::spawn(move || {
+        let rt = tokio::runtime::Builder::new_multi_thread().worker_threads(4).enable_all().build().unwrap();
+        let out = rt.block_on(async move {
+            let mut bad = Vec::new();
+            let app = Deltio::new();
+            let routes = app.server_builder().into_service();
+            let mut p = PublisherClient::new(Wire::new(routes.clone()));
+            for i in 0..300 {
+                let _ = p.create_topic(Topic { name: format!("projects/ls/topics/base{}", i), ..Default::default() }).await;
+            }
+            let mut calls = 0u64;
+            for r in 0..rounds {
+                let mut hs = Vec::new();
+                for w in 0..2usize {
+                    let routes = routes.clone();
+                    hs.push(tokio::spawn(async move {
+                        let mut c = PublisherClient::new(Wire::new(routes));
+                        let name = format!("projects/ls/topics/r{}w{}", r, w);
+                        let _ = c.create_topic(Topic { name: name.clone(), ..Default::default() }).await;
+                        if (seed as usize + r + w) % 3 == 0 {
+                            let _ = c.delete_topic(DeleteTopicRequest { topic: name }).await;
+                            false
+                        } else {
+                            true
+                        }
+                    }));
+                }
+                let mut ls = Vec::new();
+                for _ in 0..2 {
+                    let routes = routes.clone();
+                    ls.push(tokio::spawn(async move {
+                        let mut c = PublisherClient::new(Wire::new(routes));
+                        let _ = c.list_topics(ListTopicsRequest { project: "projects/ls".into(), page_size: 1000, page_token: String::new() }).await;
+                    }));
+                }
+                let mut kept = 0;
+                for h in hs {
+                    if let Ok(true) = h.await {
+                        kept += 1;
+                    }
+                }
+                for l in ls {
+                    let _ = l.await;
+                }
+                calls += 6;
+                let _ = kept;
+                // quiet now: walk
+                let mut names: Vec<String> = Vec::new();
+                let mut token = String::new();
+                loop {
+                    match p.list_topics(ListTopicsRequest { project: "projects/ls".into(), page_size: 1000, page_token: token.clone() }).await {
+                        Ok(resp) => {
+                            let resp = resp.into_inner();
+                            names.extend(resp.topics.into_iter().map(|t| t.name));
+                            token = resp.next_page_token;
+                            if token.is_empty() {
+                                break;
+                            }
+                        }
+                        Err(e) => {
+                            bad.push(("list_failed_mt".into(), vec!["C13"], format!("ListTopics failed: {}", e)));
+                            break;
+                        }
+                    }
+                }
+                // what exists: every name answers GetTopic
+                let mut expect: Vec<String> = (0..300).map(|i| format!("projects/ls/topics/base{}", i)).collect();
+                for rr in 0..=r {
+                    for w in 0..2usize {
+                        if (seed as usize + rr + w) % 3 != 0 {
+                            expect.push(format!("projects/ls/topics/r{}w{}", rr, w));
+                        }
+                    }
+                }
+                let mut a = names.clone();
+                a.sort();
+                let mut b = expect.clone();
+                b.sort();
+                if a != b {
+                    let missing: Vec<&String> = b.iter().filter(|x| !a.contains(x)).take(3).collect();
+                    let extra: Vec<&String> = a.iter().filter(|x| !b.contains(x)).take(3).collect();
+                    bad.push(("walk_mismatch_mt".into(), vec!["C13", "C10"], format!("round {}: a quiet ListTopics walk yielded {} names, {} exist; missing {:?}, not existing {:?}", r, a.len(), b.len(), missing, extra)));
+                    break;
+                }
+            }
+            (calls, bad)
+        });
+        rt.shutdown_background();
+        let _ = tx.send(out);
+    });
+    match rx.recv_timeout(Duration::from_secs(180)) {
+        Ok(r) => r,
+        Err(_) => (0, vec![("storm_stuck_mt".into(), vec!["C07"], "the list storm did not come back within 180 s".into())]),
+    }
+}
+
+/// Worker entry for the answer-checking storms: `which` = "publish" (C08, C09) or "list" (C13).
+pub fn mt_answer_check(ctx: &WorkerCtx, out: &mut WorkerOut, which: &str, rounds: u64) {
+    if ctx.widx >= 2 {
+        return;
+    }
+    for r in 0..rounds {
+        let seed = ctx.seed.wrapping_mul(31).wrapping_add(r * 2 + ctx.widx);
+        let input = json!({"engine":"mt_answer_storm","which":which,"seed":seed});
+        let _ = std::fs::write(&ctx.inflight, serde_json::to_vec(&input).unwrap_or_default());
+        let (n, bad) = if which == "publish" { run_mt_publish_storm(seed, 8, 40, 60) } else { run_mt_list_storm(seed, 40) };
+        out.evaluations += n;
+        out.class(&format!("mt_{}_storm/round", which));
+        for (rule, props, detail) in bad {
+            if props.iter().any(|p| *p == ctx.prop) {
+                if out.failure.is_none() {
+                    out.failure = Some(Failure { rule, detail: format!("on a 4-thread runtime: {}", detail), engine: "mt_answer_storm".into(), input: input.clone(), trace: json!(null) });
+                }
+            } else {
+                *out.other_hits.entry(format!("{}:{}", props.join("/"), rule)).or_insert(0) += 1;
+            }
+        }
+        if out.failure.is_some() {
+            return;
+        }
+    }
+}
+
+pub fn replay_mt_answer(input: &serde_json::Value) -> Result<Vec<Violation>, String> {
+    let seed = input.get("seed").and_then(|s| s.as_u64()).ok_or("no seed")?;
+    let which = input.get("which").and_then(|s| s.as_str()).unwrap_or("publish").to_string();
+    for k in 0..4 {
+        let (_, bad) = if which == "publish" { run_mt_publish_storm(seed.wrapping_add(k), 8, 40, 60) } else { run_mt_list_storm(seed.wrapping_add(k), 40) };
+        if !bad.is_empty() {
+            return Ok(bad.into_iter().map(|(rule, props, detail)| Violation { rule, props: props.into_iter().map(|p| p.to_string()).collect(), at: 0, detail }).collect());
+        }
+    }
+    Ok(vec![])
+}
+
+// ------------------------------------------------------------------------------------
+// Push endpoints that are almost URLs (C17): accepted or rejected, they must not take the
+// push loop (or anything else) down.
+
+/// One well-behaved push subscription plus CreateSubscription requests whose push endpoint
+/// starts like a URL and is none. Afterwards the good subscription must still be pushed to,
+/// the push loop must still be running and ordinary requests must still be answered.
+pub fn run_push_endpoint_probe() -> Vec<(String, String)> {
+    std::env::set_var("NO_PROXY", "127.0.0.1,localhost");
+    let (tx, rx) = std::sync::mpsc::channel();
+    std::thread::spawn(move || {
+        let rt = tokio::runtime::Builder::new_multi_thread().worker_threads(4).enable_all().build().unwrap();
+        let out = rt.block_on(async move {
+            let mut bad: Vec<(String, String)> = Vec::new();
+            let listener = tokio::net::TcpListener::bind("127.0.0.1:0").await.unwrap();
+            let port = listener.local_addr().unwrap().port();
+            let st = Arc::new(Mutex::new(EndpointState { t0: Instant::now(), scripts: HashMap::new(), scripts_odd: HashMap::new(), order: HashMap::new(), attempts: HashMap::new(), hits: Vec::new() }));
+            {
+                let st = st.clone();
+                tokio::spawn(async move {
+                    loop {
+                        if let Ok((sock, _)) = listener.accept().await {
+                            tokio::spawn(serve_conn(sock, st.clone()));
+                        }
+                    }
+                });
+            }
+            let app = Deltio::new();
+            let routes = app.server_builder().into_service();
+            let mut p = PublisherClient::new(Wire::new(routes.clone()));
+            let mut s = SubscriberClient::new(Wire::new(routes.clone()));
+            let push_loop = tokio::spawn(app.push_loop(Duration::from_millis(20)).run());
+            let topic = "projects/ep/topics/t".to_string();
+            let _ = p.create_topic(Topic { name: topic.clone(), ..Default::default() }).await;
+            let good = "projects/ep/subscriptions/good".to_string();
+            let _ = s
+                .create_subscription(Subscription { name: good.clone(), topic: topic.clone(), ack_deadline_seconds: 10, push_config: Some(PushConfig { push_endpoint: format!("http://127.0.0.1:{}/good", port), ..Default::default() }), ..Default::default() })
+                .await;
+            let near_misses = ["http://localhost:99999/push", "http://", "https//example.com/push", "http://exa mple.com/x", "http://[::1", "http:///nohost", "https://", "http://%zz/"];
+            for (i, ep) in near_misses.iter().enumerate() {
+                let name = format!("projects/ep/subscriptions/odd{}", i);
+                match tokio::time::timeout(Duration::from_secs(10), s.create_subscription(Subscription { name, topic: topic.clone(), ack_deadline_seconds: 10, push_config: Some(PushConfig { push_endpoint: ep.to_string(), ..Default::default() }), ..Default::default() })).await {
+                    Ok(_) => {}
+                    Err(_) => bad.push(("request_never_answered".into(), format!("CreateSubscription with push endpoint {:?} did not return", ep))),
+                }
+            }
+            tokio::time::sleep(Duration::from_millis(300)).await;
+            let _ = p.publish(PublishRequest { topic: topic.clone(), messages: vec![PubsubMessage { data: b"probe".to_vec(), ..Default::default() }] }).await;
+            let start = Instant::now();
+            let mut posted = false;
+            while start.elapsed() < Duration::from_secs(6) {
+                if st.lock().unwrap().hits.iter().any(|h| h.path == "/good") {
+                    posted = true;
+                    break;
+                }
+                tokio::time::sleep(Duration::from_millis(50)).await;
+            }
+            if push_loop.is_finished() {
+                bad.push(("push_loop_died".into(), "after CreateSubscription requests with near-miss push endpoints the push loop task has ended (panicked)".into()));
+            } else if !posted {
+                bad.push(("push_starved".into(), "after CreateSubscription requests with near-miss push endpoints a well-behaved push subscription was not POSTed to within 6 s".into()));
+            }
+            match tokio::time::timeout(Duration::from_secs(10), s.get_subscription(GetSubscriptionRequest { subscription: good.clone() })).await {
+                Ok(Ok(_)) => {}
+                Ok(Err(e)) => bad.push(("health_probe_failed".into(), format!("GetSubscription of the good subscription afterwards: {}", e))),
+                Err(_) => bad.push(("request_never_answered".into(), "GetSubscription afterwards did not return".into())),
+            }
+            bad
+        });
+        rt.shutdown_background();
+        let _ = tx.send(out);
+    });
+    rx.recv_timeout(Duration::from_secs(90)).unwrap_or_else(|_| vec![("probe_stuck".into(), "the push endpoint probe did not come back within 90 s".into())])
+}
+
+pub fn push_endpoint_check(ctx: &WorkerCtx, out: &mut WorkerOut) {
+    if ctx.widx != 0 {
+        return;
+    }
+    let input = json!({"engine":"push_endpoint_probe"});
+    let _ = std::fs::write(&ctx.inflight, serde_json::to_vec(&input).unwrap_or_default());
+    out.evaluations += 8;
+    out.class("push_endpoint_probe/run");
+    if let Some((rule, detail)) = run_push_endpoint_probe().into_iter().next() {
+        out.failure = Some(Failure { rule, detail, engine: "push_endpoint_probe".into(), input, trace: json!(null) });
+    }
+}
+
+pub fn replay_push_endpoint(_input: &serde_json::Value) -> Result<Vec<Violation>, String> {
+    Ok(run_push_endpoint_probe().into_iter().map(|(rule, detail)| Violation { rule, props: vec!["C17".into()], at: 0, detail }).collect())
+}
+
+// ------------------------------------------------------------------------------------
+// Wire probe (C15, C07): the one check that goes through a real connection (TCP loopback,
+// HTTP/2), because per-connection admission settings of the server builder are invisible to
+// the in-process transport.
+
+/// 40 long-poll Pulls parked on empty subscriptions over ONE client connection; a Pull over the
+/// same connection on a subscription that has a message, and a Publish, must still be answered.
+pub fn run_wire_probe() -> Vec<(String, String)> {
+    let (tx, rx) = std::sync::mpsc::channel();
+    std::thread::spawn(move || {
+        let rt = tokio::runtime::Builder::new_multi_thread().worker_threads(4).enable_all().build().unwrap();
+        let out = rt.block_on(async move {
+            let mut bad: Vec<(String, String)> = Vec::new();
+            let app = Deltio::new();
+            let listener = tokio::net::TcpListener::bind("127.0.0.1:0").await.unwrap();
+            let port = listener.local_addr().unwrap().port();
+            let incoming = tokio_stream::wrappers::TcpListenerStream::new(listener);
+            let server = app.server_builder().serve_with_incoming(incoming);
+            tokio::spawn(server);
+            let channel = match tonic::transport::Endpoint::from_shared(format!("http://127.0.0.1:{}", port)).unwrap().connect().await {
+                Ok(c) => c,
+                Err(e) => return vec![("wire_connect_failed".to_string(), format!("{}", e))],
+            };
+            let mut p = PublisherClient::new(channel.clone());
+            let mut s = SubscriberClient::new(channel.clone());
+            let topic = "projects/wp/topics/t".to_string();
+            let quiet_topic = "projects/wp/topics/quiet".to_string();
+            let _ = p.create_topic(Topic { name: topic.clone(), ..Default::default() }).await;
+            let _ = p.create_topic(Topic { name: quiet_topic.clone(), ..Default::default() }).await;
+            for i in 0..40 {
+                let _ = s.create_subscription(Subscription { name: format!("projects/wp/subscriptions/idle{}", i), topic: quiet_topic.clone(), ack_deadline_seconds: 10, ..Default::default() }).await;
+            }
+            let busy = "projects/wp/subscriptions/busy".to_string();
+            let _ = s.create_subscription(Subscription { name: busy.clone(), topic: topic.clone(), ack_deadline_seconds: 10, ..Default::default() }).await;
+            let _ = p.publish(PublishRequest { topic: topic.clone(), messages: vec![PubsubMessage { data: b"x".to_vec(), ..Default::default() }] }).await;
+            // park the long polls (same connection: clones of one channel)
+            let mut parked = Vec::new();
+            for i in 0..40 {
+                let mut c = SubscriberClient::new(channel.clone());
+                parked.push(tokio::spawn(async move {
+                    #[allow(deprecated)]
+                    let _ = c.pull(PullRequest { subscription: format!("projects/wp/subscriptions/idle{}", i), max_messages: 1, return_immediately: false }).await;
+                }));
+            }
+            tokio::time::sleep(Duration::from_millis(500)).await;
+            #[allow(deprecated)]
+            match tokio::time::timeout(Duration::from_secs(8), s.pull(PullRequest { subscription: busy.clone(), max_messages: 1, return_immediately: false })).await {
+                Ok(Ok(r)) => {
+                    if r.into_inner().received_messages.is_empty() {
+                        bad.push(("wire_pull_empty".into(), "Pull on a subscription with a message returned nothing".into()));
+                    }
+                }
+                Ok(Err(e)) => bad.push(("wire_pull_failed".into(), format!("{}", e))),
+                Err(_) => bad.push(("request_starved_on_connection".into(), "with 40 long-poll Pulls parked on one connection, a Pull over the same connection on a subscription that has a message was not answered within 8 s".into())),
+            }
+            match tokio::time::timeout(Duration::from_secs(8), p.publish(PublishRequest { topic: quiet_topic.clone(), messages: vec![PubsubMessage { data: b"wake".to_vec(), ..Default::default() }] })).await {
+                Ok(_) => {}
+                Err(_) => bad.push(("request_starved_on_connection".into(), "with 40 long-poll Pulls parked on one connection, a Publish over the same connection was not answered within 8 s".into())),
+            }
+            for h in parked {
+                h.abort();
+            }
+            bad
+        });
+        rt.shutdown_background();
+        let _ = tx.send(out);
+    });
+    rx.recv_timeout(Duration::from_secs(90)).unwrap_or_else(|_| vec![("probe_stuck".into(), "the wire probe did not come back within 90 s".into())])
+}
+
+pub fn wire_check(ctx: &WorkerCtx, out: &mut WorkerOut) {
+    if ctx.widx != 0 {
+        return;
+    }
+    let input = json!({"engine":"wire_probe"});
+    let _ = std::fs::write(&ctx.inflight, serde_json::to_vec(&input).unwrap_or_default());
+    out.evaluations += 42;
+    out.class("wire_probe/run");
+    if let Some((rule, detail)) = run_wire_probe().into_iter().next() {
+        out.failure = Some(Failure { rule, detail, engine: "wire_probe".into(), input, trace: json!(null) });
+    }
+}
+
+pub fn replay_wire(_input: &serde_json::Value) -> Result<Vec<Violation>, String> {
+    Ok(run_wire_probe().into_iter().map(|(rule, detail)| Violation { rule, props: vec!["C15".into(), "C07".into()], at: 0, detail }).collect())
+}
